@@ -194,6 +194,39 @@ def run(rng, n_texts=60, deadlines=True):
     return {"name": "search", "cases": len(ops), "nontrivial": nontrivial, "disagreements": bad}
 
 
+def directed(hints, limit=24):
+    """failing-input search after a broken rule-level obligation: the rendered argument texts are parsed end to end by the real
+    code and by the model (injective scorer, no depth limit, latent on and off); returns the inputs whose streams differ"""
+    mods()
+    drv = Driver()
+    ops, want, meta = [], [], []
+    seen = set()
+    for h in hints:
+        if not h:
+            continue
+        ts = datetime(*h["ts"])
+        for txt in h["texts"]:
+            if (txt, tuple(h["ts"])) in seen or len(seen) >= limit:
+                continue
+            seen.add((txt, tuple(h["ts"])))
+            for latent in (False, True):
+                out, subject, labels, err, ncalls, single = run_real(txt, ts, "hash", latent, 0, 1, 1, None)
+                ops.append("parse hash %s %d 0 1 1 - %s" % (enc_ts(ts), 1 if latent else 0, enc(txt)))
+                want.append(fmt(out, subject, labels, err)); meta.append((txt, h["ts"], latent))
+    got = drv.run(ops) if ops else []
+    bad = []
+    for g, (cands, subj, labs, err, best), (txt, ts, latent) in zip(got, want, meta):
+        parts = g.split(" ## ")
+        if len(parts) != 5 or parts[0] != cands or parts[3] != err:
+            mc = parts[0].split(";;") if len(parts) == 5 else [g]
+            ic = cands.split(";;")
+            only_m = [x for x in mc if x not in ic][:3]; only_i = [x for x in ic if x not in mc][:3]
+            bad.append({"text": txt, "ts": ts, "opts": {"latent_time": latent, "max_stack_depth": 0, "scorer": "injective synthetic"},
+                        "expected": "model: error=%s; candidates only in the model: %s" % (parts[3] if len(parts) == 5 else "?", only_m),
+                        "observed": "code: error=%s; candidates only in the code: %s" % (err, only_i)})
+    return bad
+
+
 if __name__ == "__main__":
     r = run(random.Random(int(sys.argv[1]) if len(sys.argv) > 1 else 0), int(sys.argv[2]) if len(sys.argv) > 2 else 60)
     print(r["cases"], r["nontrivial"], len(r["disagreements"]))
